@@ -198,6 +198,17 @@ def scenario(ctx, i, rng):
             for path, assigns in files:
                 sources.append(("default_file", effective(assigns)))
         kinds_present.append("default_file")
+        # decoys that contribute no assignment and must not disturb the others
+        if use_glob and rng.random() < 0.25:
+            os.makedirs(os.path.join(wd, "conf.d", "adir.yaml"))  # a directory that the pattern matches as well
+            kinds_present.append("directory_matched_by_default_pattern")
+        if rng.random() < 0.25:
+            nm = os.path.join("conf.d", "m_comment.yaml") if use_glob else "comment.yaml"
+            with open(os.path.join(wd, nm), "w") as f:
+                f.write(rng.choice(["# a: 5\n", "\n# nothing set here\n\n", "---\n# l: [9]\n"]))
+            if not use_glob:
+                default_files.insert(rng.randrange(len(default_files) + 1), nm)
+            kinds_present.append("comment_only_default_file")
     # ---- environment ----
     env = {}
     env_mode = rng.choice(["off", "off", "default_env", "env_kw", "JSONARGPARSE_DEFAULT_ENV"])
